@@ -67,13 +67,24 @@ macro_rules! lab_int { ($($t:ty),*) => { $(impl Lab for $t {
     fn to_lab(&self) -> String { format!("{self}") }
 })* } }
 lab_int!(i8, i16, i32, i64, u8, u16, u32, u64, isize, usize);
+
+/// pool of interesting doubles; arrays of type f64p / f32p carry indices into it
+pub const POOL: [f64; 20] = [0.0, -0.0, 1.0, -1.0, 2.0, 0.5, -2.5, 3.0, 1e300, -1e300, 5e-324, f64::INFINITY, f64::NEG_INFINITY, f64::NAN, 7.25, 100.0, 1e-10, 1.0000000000000002, -7.0, 0.1];
 impl Lab for f64 {
     fn from_lab(x: i128) -> Self { x as f64 }
-    fn to_lab(&self) -> String { if self.fract() == 0.0 && self.abs() < 1e15 { format!("{}", *self as i64) } else { format!("f{:016x}", self.to_bits()) } }
+    fn to_lab(&self) -> String {
+        if self.is_nan() { "nan".into() }
+        else if self.fract() == 0.0 && self.abs() < 1e15 && !(*self == 0.0 && self.is_sign_negative()) { format!("{}", *self as i64) }
+        else { format!("f{:016x}", self.to_bits()) }
+    }
 }
 impl Lab for f32 {
     fn from_lab(x: i128) -> Self { x as f32 }
-    fn to_lab(&self) -> String { if self.fract() == 0.0 && self.abs() < 1e7 { format!("{}", *self as i64) } else { format!("f{:08x}", self.to_bits()) } }
+    fn to_lab(&self) -> String {
+        if self.is_nan() { "nan".into() }
+        else if self.fract() == 0.0 && self.abs() < 1e7 && !(*self == 0.0 && self.is_sign_negative()) { format!("{}", *self as i64) }
+        else { format!("f{:08x}", self.to_bits()) }
+    }
 }
 impl Lab for String {
     fn from_lab(x: i128) -> Self { format!("{x}") }
